@@ -706,4 +706,29 @@ Section Faces.
     exists (map (mk_plaquette L) ws). split; [rewrite Hfind, Eps; reflexivity|]. split; [exact P|].
     rewrite (zsum_perm _ _ P). apply zsum_flat_const.
   Qed.
+
+  (* any quantity of a plaquette that depends only on the base face: every plaquette has one of the base values *)
+  Theorem periodic_plaquette_value (X : Type) (bv : list bdart -> X) (gv : plaquette -> X) :
+    (forall t c l1 l2, t < N -> In c bfaces -> c = l1 ++ l2 -> gv (mk_plaquette L (twalk t (l2 ++ l1))) = bv c) ->
+    forall ps, find_all_plaquettes L = Some ps -> forall p, In p ps -> In (gv p) (map bv bfaces).
+  Proof.
+    intros Hgv ps Hps p Hp.
+    destruct (plaquettes_spec L HG) as (fs & Hall & Hfind & _ & Hin).
+    destruct (all_faces_spec L HG) as (fs' & Hall' & Hfs & _ & _).
+    rewrite Hall in Hall'. injection Hall' as <-. rewrite Hps in Hfind. injection Hfind as ->.
+    apply Hin in Hp as (f & Hf & _ & ->).
+    destruct (face_is_twalk _ (proj1 (Hfs f Hf))) as (t & c & l1 & l2 & Ht & Hc & E & ->).
+    rewrite (Hgv t c l1 l2 Ht Hc E). apply in_map, Hc.
+  Qed.
+
+  (* the directed edges of a copy: valid edges, directions of the base face *)
+  Lemma twalk_darts : forall c t, t < N -> (forall d, In d c -> fst d < ne) ->
+    map snd (walk_darts (twalk t c)) = map snd c /\ (forall d, In d (walk_darts (twalk t c)) -> fst d < nE L).
+  Proof.
+    induction c as [|d r IH]; intros t Ht He; [split; [reflexivity|intros ? []]|].
+    destruct (IH (tr (dshift d) t) (Htr_lt _ _ Ht) (fun x Hx => He x (or_intror Hx))) as [I1 I2].
+    cbn [twalk walk_darts map]. split.
+    - cbn [snd]. f_equal. exact I1.
+    - intros x [<-|Hx]; [|apply I2, Hx]. cbn [fst]. apply Heid_lt; [apply ecl_lt, Ht|apply He; left; reflexivity].
+  Qed.
 End Faces.
